@@ -119,6 +119,7 @@ class Sandbox:
         self.cwd = os.path.join(self.root, "proj")
         os.makedirs(self.cwd)
         self.clock = 1_000_000_000 * 1_000_000_000  # 2001-09-09, far in the past
+        self.case_files = set()   # paths (relative to root) that the case itself wrote: everything else was made by qmluic
 
     def park(self):
         os.rename(self.root, self.parked)
@@ -160,6 +161,12 @@ class Sandbox:
 
     def apply(self, step):
         op = step["op"]
+        if op in ("WRITE", "LINKOUT"):
+            self.case_files.add(os.path.normpath(step["path"]))
+            if step.get("victim"):
+                self.case_files.add(os.path.normpath(step["victim"]))
+        elif op == "DELETE":
+            self.case_files.discard(os.path.normpath(step["path"]))
         if op == "WRITE":
             p = os.path.join(self.root, step["path"])
             os.makedirs(os.path.dirname(p), exist_ok=True)
@@ -224,6 +231,14 @@ def diff_paths(a, b):
     return res
 
 
+def is_scratch(sb, p, relpred, before):
+    """a file that is not an output, was not put there by the case itself, and sits in the directory of an output: scratch
+    space of this or of an earlier (killed) run.  qmluic uses .tmpXXXXXX next to the destination; another naming scheme,
+    or re-using a leftover, would be just as legitimate as long as the outputs come out right."""
+    dirs = set(posixpath.dirname(o) for o in relpred)
+    return p not in relpred and p not in sb.case_files and posixpath.dirname(p) in dirs
+
+
 def check_confinement(sb, step, res, pred):
     """Monitor over the call log: every output-tree mutation names a predicted output, a temp
     file in the directory of one, or creates a directory needed to hold one."""
@@ -252,10 +267,10 @@ def check_confinement(sb, step, res, pred):
             base = posixpath.basename(t)
             if t in allowed_files:
                 continue
-            if base.startswith(".tmp#") and posixpath.dirname(t) in set(posixpath.dirname(p) for p in pred):
-                continue
+            if posixpath.dirname(t) in set(posixpath.dirname(p) for p in pred):
+                continue    # next to an output: the output itself, or scratch of the run (what remains is judged on the snapshots)
             out.append(V("confinement", "confine:mutation-outside",
-                         "call mutates %s, which is neither a predicted output nor a temp file next to one\n%s\npredicted: %s"
+                         "call mutates %s, which is not in the directory of any predicted output\n%s\npredicted: %s"
                          % (t, c.line, sorted(pred)), call=c.idx))
     return out
 
@@ -284,8 +299,8 @@ def eval_clean_run(sb, step, before, after, res, pred, label=""):
     for p in changed:
         if p in relpred:
             continue
-        if fsmodel.is_temp(p) and p not in before.files:
-            if res.exit_status == 0:
+        if is_scratch(sb, p, relpred, before):
+            if res.exit_status == 0 and p not in before.files and p in after.files:
                 out.append(V("file-set", "fileset:temp-left", "%stemp file %s left behind by a successful run" % (label, p)))
             # a run that fails (e.g. rename onto a directory) keeps its temp file because main() leaves through
             # process::exit; the property speaks of successfully translated sources, so that is recorded, not flagged
@@ -345,8 +360,8 @@ def eval_faulted_run(sb, step, before, golden_after, after, res, pred, golden_ex
     for p in diff_paths(before, after):
         if p in relpred:
             continue
-        if fsmodel.is_temp(p) and p not in before.files:
-            continue  # a killed or failed process may leave its temp file; confinement was checked on the log
+        if is_scratch(sb, p, relpred, before):
+            continue  # a killed or failed process may leave its scratch file; confinement was checked on the log
         out.append(V("atomic-replace", "atomic:bystander-changed", "%safter %s, unrelated path %s changed" % (label, fault_kind, p)))
     if res.exit_status == 0 and golden_exit == 0:
         for p in sorted(relpred):
@@ -391,3 +406,37 @@ def in_scope(call, sb):
     if not ps:
         return False
     return all(posixpath.normpath(p).startswith(sb.root) or posixpath.normpath(p).startswith(sb.env.metatypes) for p in ps)
+
+
+def freshness(sb, step, relpred, after, account=None):
+    """What a successful run leaves at the output paths must be what the same invocation writes where nothing that an
+    earlier qmluic run produced exists (no outputs, no leftovers): an output kept because "nothing changed" must really
+    be unchanged, and nothing of an earlier run may leak into a later one.  -> list of violations"""
+    out = []
+    sb.park()
+    try:
+        sb.clone_in()
+        for dp, dn, fn in os.walk(sb.root):
+            for f in fn:
+                p = os.path.join(dp, f)
+                rel = os.path.normpath(os.path.relpath(p, sb.root))
+                if rel in relpred or rel not in sb.case_files:
+                    os.unlink(p)
+        fr = sb.run(step)
+        if account:
+            account(fr)
+        fresh = sb.snap()
+        sb.drop_clone()
+    finally:
+        sb.unpark()
+    if fr.exit_status == 0:
+        for p in sorted(relpred):
+            if fresh.content(p) != after.content(p):
+                from . import c08
+                out.append(V("freshness", "fresh:stale-output", "exit 0, but output %s is not what this invocation generates from the current sources "
+                             "(kept from, or polluted by, an earlier run?): here %s, freshly generated %s\n%s"
+                             % (p, _d(after.content(p)), _d(fresh.content(p)), c08._firstdiff(fresh.content(p), after.content(p)))))
+    else:
+        out.append(V("freshness", "fresh:only-succeeds-over-old-outputs", "exit 0 over the existing tree, but the same invocation exits %s where no earlier output exists\n%s"
+                     % (fr.disposition(), fr.stderr[-400:])))
+    return out
